@@ -311,7 +311,7 @@ package engine
 //@   ghost perm = idperm()
 //@   ghost iperm = idperm()
 //@   use selectloop(0, names)
-//@   loop 0 invariant selE: forall qi :: 0 <= qi && qi < rangeindex + 1 && (names[qi] in KC0.RuleEntities) ==> len(rules) > 0
+//@   loop 0 invariant selE: len(rules) == 0 ==> (forall qi :: 0 <= qi && qi < rangeindex + 1 ==> !(names[qi] in KC0.RuleEntities))
 //@   use seqmonitor(rules, false, false)
 //@   use forkghosts()
 //@   use forkmonitor($2, rules, 1, 0, cursor == 1 && !failed && len(rules) >= 3)
